@@ -110,7 +110,7 @@ pub fn run_target(target: &str, args: &Args, runs: u64, allow: &[String]) -> Fuz
         .env("CARGO_NET_OFFLINE", "true")
         .env_remove("RUSTFLAGS")
         .env_remove("CARGO_TARGET_DIR");
-    let bo = crate::farm::run_cmd(b, std::time::Duration::from_secs(3600));
+    let bo = crate::farm::run_cmd(b, std::time::Duration::from_secs(3 * 3600));
     if bo.status != Some(0) {
         r.infra = Some(format!("cargo fuzz build failed: {}", crate::util::truncate(bo.stderr.trim_end().rsplit('\n').take(6).collect::<Vec<_>>().join(" | ").as_str(), 600)));
         return r;
